@@ -4,7 +4,7 @@ from common import *
 
 NOW = 1700000000000
 KEYS = ["a", "b", "c"]
-VALUES = ["", "x", "%d", "hello", "007", "12", "-3", "1.5", "-0.25", "a\r\nb", "\x00\xff\x80z", "+5", "1.50", "10"]
+VALUES = ["", "x", "%d", "0.00001", "hello", "007", "12", "-3", "1.5", "-0.25", "a\r\nb", "\x00\xff\x80z", "+5", "1.50", "10"]
 BIG = ["9223372036854775807", "-9223372036854775808", "9223372036854775806"]
 INTS = ["1", "-1", "0", "5", "-7", "100", "9223372036854775807", "-9223372036854775808"]
 FLOATS = ["1.5", "-0.25", "2", "0.5", "-3"]
